@@ -152,9 +152,9 @@ func init() {
 			if dup {
 				tab.bindings = append(tab.bindings, c06Binding{tab.bindings[0].tmpl, "POST"})
 			}
-			if m := c.Choose("method-variation", 4); m > 0 && len(tab.bindings) > 0 {
+			if m := c.Choose("method-variation", 5); m > 0 && len(tab.bindings) > 0 {
 				k := len(tab.bindings) - 1
-				tab.bindings[k].method = []string{"POST", "*", "DELETE"}[m-1]
+				tab.bindings[k].method = []string{"POST", "*", "DELETE", "Purge"}[m-1] // "Purge": a custom kind that is not upper case
 			}
 			if len(tab.bindings) > 1 {
 				tab.addl = c.Choose("as-additional-binding", 2) == 1
@@ -226,7 +226,9 @@ func init() {
 						matches = append(matches, cand{b, bi, caps, amb, zero})
 					}
 				}
-				for hi, hm := range []string{"GET", "POST", "DELETE"} {
+				// HTTP methods are case-sensitive tokens: a fourth request per path uses a method that
+				// differs from a standard or configured one only in case (or is the custom kind itself)
+				for hi, hm := range []string{"GET", "POST", "DELETE", []string{"get", "Delete", "Purge", "PURGE", "Post"}[pi%5]} {
 					evals++
 					var outs []c06Outcome
 					for _, w2 := range worlds {
